@@ -345,6 +345,11 @@ func (w *World) ExecWith(o Op) Obs {
 		if s := w.ptokString(o.Tok); s != "" {
 			v.Set("token", s)
 		}
+		// token_type_hint is only an optimisation hint (RFC 7009 2.1, RFC 7662 2.1): it is not part of the
+		// model's input and must not change any answer
+		if o.Hint != "" {
+			v.Set("token_type_hint", o.Hint)
+		}
 		w.allowed = o.Allowed
 		path := pfx + "/introspect"
 		kind := "intro"
